@@ -253,12 +253,57 @@ NOT_BUILT_REASON = ("check not built yet in this revision; the property is decid
                     "has been validated")
 
 
+# additions made after the second round of independently seeded changes (DESIGN.md 0.4)
+ROUND2 = {
+    "C02": ("the same postconditions on numerically traced potentials (real WallGoManager "
+            "set-up: phase tracing, interpolation, extrapolation) and an existence oracle "
+            "(continuity-checked sign change of T_n'(v+) up to the sonic limit) for template "
+            "fallbacks",
+            "Also ~90 (quick) / ~900 (thorough) matchings on equations of state traced by the "
+            "real manager."),
+    "C05": ("history monitor on WallGoManager.wallSpeedLTE(): parameters changed in place, "
+            "set-up again, re-registered, new T_n; every value judged on the manager's current "
+            "objects",
+            "Also 8/60 manager histories with 2-4 set-ups each."),
+    "C06": ("range-cut workload includes tabulated ranges ending below every detonation",
+            ""),
+    "C07": ("out-of-equilibrium unit pairs with synthetic (dimensionless) collision files; "
+            "P_eos admissibility of the traced equation of state",
+            "Also 4/12 out-of-equilibrium models per run."),
+    "C08": ("forced pure field exchanges in units with T_n >> 1 under a converged pressure "
+            "iteration; end-state stationarity probe (real EOM.action) that keeps the known "
+            "start-dependence finding from absorbing other divergences",
+            ""),
+    "C01": ("end-state stationarity probe (real EOM.action) discriminating the known "
+            "start-dependence finding", ""),
+    "C09": ("extreme unit factors 10^+-(3.3..4.3) on a fifth of the cases", ""),
+    "C10": ("requested range ends placed relative to the recorded tracer steps (remainders "
+            "1e-5..8e-3 dT beyond a step, exactly on, just before)", ""),
+    "C11": ("re-trace histories on the same FreeEnergy object (finer dT, wider / narrower / "
+            "equal ranges, paranoid toggled) judged by the same oracles after every call; "
+            "range ends placed 0/+-1..3 ulp around a tracer step", ""),
+    "C12": ("grid rescaled in place after the solver was constructed (position / momentum / "
+            "Grid3Scales parameters, near-identity, sequences), judged against an independent "
+            "reference system for the grid as it is now and against a solver built afterwards",
+            ""),
+    "C13": ("getDeltas before and after in-place grid rescales on the same solver", ""),
+    "C14": ("operand-preservation monitor at every hook (numbers, labels and action of every "
+            "input object unchanged) and sources kept in use across operations", ""),
+    "C20": ("call-history cases on the stand-alone Integrals() object (500-1100 earlier "
+            "evaluations over five decades, then judged against the reference and a fresh "
+            "object)", ""),
+}
+
+
 def main():
     checks = []
     for pid in ALL:
         if pid not in CHECKS:
             continue
         tech, text, note, ref = CHECKS[pid]
+        if pid in ROUND2:
+            tech = tech + "; " + ROUND2[pid][0]
+            text = text + " " + ROUND2[pid][1]
         checks.append({
             "property_id": pid,
             "quick_cmd": f"./check {pid} --tier quick",
